@@ -54,7 +54,7 @@ Definition ex_hdr : hdr := mkHdr [77; 70; 85; 83] 1 [77; 111; 114].
 Definition ex_items : list item :=
   [ ILeaf (LPtr true (Some 5)); ILeaf (LPtr false (Some 7)); ILeaf (LStr []);
     IObj 0 5 [LPrim KInt16 32768; LPtr false (Some 5); LPtr true (Some 7); LStr [200; 1; 255]];
-    IObj 2 7 [LPtr true None; LPrim KFloat 2143289344]; ILeaf (LPos 9); ILeaf (LPtr false (Some 9));
+    IObj 2 7 [LPrim KUInt8 0; LPtr true None; LPrim KFloat 2143289344]; ILeaf (LPos 9); ILeaf (LPtr false (Some 9));
     ILeaf (LPtr false (Some 5)); ILeaf (LRaw [0; 255]) ].
 
 Example C10_example_is_representable :
@@ -72,7 +72,7 @@ Definition ex_vars : list item :=
   [ ILeaf (LVar (Some (Some [107])) [mkTok 1002 (TArrayNew 5000 3 7 7 0 2); mkTok 2000 (TPrim VInt 2);
                                      mkTok 2001 (THolderRef HArray (Some 5000)); mkTok 2002 (TPrim VInt 1);
                                      mkTok 2003 (TPtr VListener (Some 5))]);
-    IObj 2 5 [LVar None [mkTok 1003 (THolderRef HArray (Some 5000))]; LPtr false (Some 5)];
+    IObj 2 5 [LPrim KUInt8 0; LVar None [mkTok 1003 (THolderRef HArray (Some 5000))]; LPtr false (Some 5)];
     ILeaf (LVar None [mkTok 1004 (TPtr VRef (Some 1002))]);
     ILeaf (LVar None [mkTok 1005 (TVector [0; 0; 0; 0; 0; 0; 128; 63; 0; 0; 0; 64])]);
     ILeaf (LVar (Some None) [mkTok 1006 (TConstArrayNew 5001 0 2); mkTok 2004 (TCStr (Some [97; 0; 98])); mkTok 2005 TNone]);
